@@ -380,7 +380,18 @@ def run(ck: Check):
     ck.trusted += ["dendropy newick parsing / traversal order", "torch matmul/indexing/broadcasting semantics",
                    "subst_model.p_t (eigh/matrix_exp), site_model.rates/probabilities"]
     lean_src, tr_ok, note = tr_datatype.translate(REPO)
-    ok, broken = ck.lean_side({"TTGen/C01_Alphabet.lean": lean_src},
+    gen_files = {"TTGen/C01_Alphabet.lean": lean_src}
+    try:  # the LG / WAG corollaries (Props/C0x_LGWAG.lean) are about the generated empirical tables: regenerate them too
+        import tr_subst
+
+        sub_src, sub_ok, sub_note = tr_subst.translate(REPO)
+        gen_files["TTGen/C04Tables.lean"] = sub_src
+        ck.extra["translator_subst_recognised_source"] = sub_ok
+        if not sub_ok:
+            ck.notes.append("translator tr_subst: " + str(sub_note))
+    except Exception as e:  # noqa: BLE001
+        ck.notes.append("tr_subst unavailable: " + repr(e)[:200])
+    ok, broken = ck.lean_side(gen_files,
                               ["TTGen.C01_Alphabet", "TTProofs.Props.C02", "drv_c02"], PROPS)
     drv = None
     try:
